@@ -147,8 +147,10 @@ def eval_protection(prog) -> dict:
                 continue
             got, _ = run(base, stmt("ifndef", wrong), indent=1)
             if got != [why]:
-                (out["derivation"] if not got else out["handlers"][why]).append(
-                    f"{base}: `#ifndef {wrong}` (expected symbol {want}) is reported {got or 'not at all'}, expected {why}")
+                msg = f"{base}: `#ifndef {wrong}` (expected symbol {want}) is reported {got or 'not at all'}, expected {why}"
+                out["handlers"][why].append(msg)
+                if not got and why == "HEADER_PROT_NAME":
+                    out["derivation"].append(msg)
         # .c: never
         cbase = base[:-2] + ".c"
         for toks, kw in ((stmt("ifndef", "WRONG_NAME"), dict(indent=1)), (stmt("ifndef", want), dict(indent=1, protected=True)),
@@ -174,7 +176,7 @@ def eval_protection(prog) -> dict:
         if got != ["HEADER_PROT_ALL_AF"]:
             out["handlers"]["HEADER_PROT_ALL_AF"].append(f"{base}: a declaration after the closing #endif is reported {got or 'not at all'}")
         if ctx.protected is not True:
-            out["handlers"]["HEADER_PROT_MULT"].append(f"{base}: the closing #endif does not mark the header as protected")
+            out["handlers"]["HEADER_PROT_ALL_AF"].append(f"{base}: the closing #endif does not mark the header as protected")
         got, _ = run(base, stmt("endif", None, [("COMMENT", "// end"), "NEWLINE"]), indent=0, macros=(want,))
         if got:
             out["handlers"]["HEADER_PROT_ALL_AF"].append(f"{base}: a comment after the closing #endif is reported {got}")
@@ -352,8 +354,19 @@ def check(run, prog):
                      any(isinstance(a, ast.If) and hint[0] in text(a.test) for a in ancestors(e.node)) for e in sites)
         if not ok and sites:
             ok = rescued("handlers", code)
+        elif ok and observed() is not None and observed()["handlers"][code]:
+            # the form is there, but on stub statements the diagnostic does not come out as specified.  The stubs set the
+            # preprocessor state by hand; they are trusted for this code only if a sibling diagnostic of the same branch
+            # (#ifndef branch / closing-#endif branch) behaves, i.e. the stub state does reach that branch
+            group = next(g_ for g_ in (("HEADER_PROT_UPPER", "HEADER_PROT_NAME", "HEADER_PROT_MULT", "HEADER_PROT_ALL"),
+                                       ("HEADER_PROT_ALL_AF", "HEADER_PROT_NODEF")) if code in g_)
+            if any(not observed()["handlers"][c_] for c_ in group if c_ != code):
+                ok = False
+                observed_why = "; ".join(observed()["handlers"][code][:2])
+                run.note(f"R-14.3 {code}: {observed_why}")
         run.ob("R-14.3", f"{cp.key}::handler[{code}]", ok,
-               f"no live emission of {code}" + (f" under a test on `{hint[0]}` ({hint[1]})" if hint else ""),
+               f"no live emission of {code}" + (f" under a test on `{hint[0]}` ({hint[1]})" if hint else "")
+               + ("; on stub statements: " + "; ".join(observed()["handlers"][code][:2]) if observed() and observed()["handlers"][code] else ""),
                sites[0].node if sites else cp.node)
     # missing guard: an end-of-file handler
     rm = registry_model(prog)
